@@ -73,7 +73,6 @@ func VpHTrie() {
 	maxMatches := vpParam("trie.matches", 2)
 	maxPlen := vpParam("trie.plen", 2)
 	maxKey := vpParam("trie.keylen", 3)
-	sorted := vpParam("trie.sorted", 0) // 1: matches are added in non-decreasing (plen, ignore#) order
 	canon := vpParam("trie.canon", 0)   // 1: one ignore string per (prefix length, ignored positions below it)
 
 	nm := vpChoose("nmatches", maxMatches+1)
@@ -89,11 +88,6 @@ func VpHTrie() {
 			for k := ig + 1; k < len(vpIgnoreStrings); k++ {
 				vpAssume(vpIgnoreMasks[k]&(1<<uint(plen)-1) != below)
 			}
-		}
-		if sorted == 1 && i > 0 {
-			// symmetry reduction for the large tier only (stated in the bounds text)
-			pi := ms[i-1].plen*len(vpIgnoreStrings) + vpMaskIdx(ms[i-1])
-			vpAssume(plen*len(vpIgnoreStrings)+ig >= pi)
 		}
 		ms[i] = &vpMatch{
 			m:    pb.Match{Prefix: vpBytes("prefix", plen), IgnoreBytes: vpIgnoreStrings[ig]},
@@ -212,15 +206,6 @@ func VpHTrie() {
 	err := t.DeleteMatch(ms[first].m, ms[first].id)
 	vpAssert(err == nil && t.root.isEmpty() && numNodes(t.root) == 1 && len(t.Get(key)) == 0, "C32:trie.delete-all-leaves-empty-trie")
 	vpObserveU64("nodes.end", uint64(numNodes(t.root)))
-}
-
-func vpMaskIdx(a *vpMatch) int {
-	for i, s := range vpIgnoreStrings {
-		if s == a.m.IgnoreBytes {
-			return i
-		}
-	}
-	return 0
 }
 
 // vpMaskBelow: ignored positions that lie inside the prefix.
